@@ -328,3 +328,133 @@ func errorTemplates(pkgs map[string]*pkgInfo) {
 	add("cfgerrors_messageTemplates", ": List Bytes := "+leanBytesList(out),
 		"the constant every return of an Error() method of cfgerrors starts from (literal, or format of fmt.Sprintf): Type|text (sorted)")
 }
+
+// receiverMutators: every method of the library packages that writes through its receiver — an assignment or ++/-- whose
+// left side is rooted at the receiver (recv.f = …, recv.f[i] = …, *recv = …), or a call, on something rooted at the
+// receiver, of a method already in the set (fixpoint by method name within the package) — as "pkg.(recvType).method".
+// C07 pins the list: the values reachable from a published configuration (tree, sets) are written only by these
+// construction-time methods; a method that starts to write (a memo in Elems, say) changes the fact.
+func receiverMutators(pkgs map[string]*pkgInfo) {
+	aliases := map[string]bool{} // locals of the method under inspection that point into the receiver (n := &t.root; child := &n.children[i])
+	rooted := func(e ast.Expr, recv string) (bool, bool) { // (rooted at recv, more than the bare identifier)
+		depth := 0
+		for {
+			switch x := e.(type) {
+			case *ast.Ident:
+				if aliases[x.Name] {
+					return true, depth > 0 // re-pointing the local itself is not a write
+				}
+				return x.Name == recv, depth > 0
+			case *ast.UnaryExpr:
+				if x.Op != token.AND {
+					return false, false
+				}
+				e = x.X
+				continue
+			case *ast.SelectorExpr:
+				e = x.X
+			case *ast.IndexExpr:
+				e = x.X
+			case *ast.StarExpr:
+				e = x.X
+			case *ast.ParenExpr:
+				e = x.X
+			case *ast.SliceExpr:
+				e = x.X
+			default:
+				return false, false
+			}
+			depth++
+		}
+	}
+	var out []string
+	for _, p := range pkgs {
+		type meth struct {
+			key, name, recv string
+			fd              *ast.FuncDecl
+		}
+		var ms []meth
+		for _, f := range p.files {
+			for _, d := range f.Decls {
+				fd, ok := d.(*ast.FuncDecl)
+				if !ok || fd.Body == nil || fd.Recv == nil || len(fd.Recv.List) != 1 || len(fd.Recv.List[0].Names) != 1 {
+					continue
+				}
+				ms = append(ms, meth{p.name + ".(" + exprText(fd.Recv.List[0].Type) + ")." + fd.Name.Name, fd.Name.Name, fd.Recv.List[0].Names[0].Name, fd})
+			}
+		}
+		mut := map[string]bool{} // method names
+		keys := map[string]bool{}
+		for changed := true; changed; {
+			changed = false
+			for _, m := range ms {
+				if keys[m.key] {
+					continue
+				}
+				writes := false
+				for k := range aliases {
+					delete(aliases, k)
+				}
+				for round := 0; round < 3; round++ {
+					ast.Inspect(m.fd.Body, func(n ast.Node) bool {
+						if s, ok := n.(*ast.AssignStmt); ok && len(s.Lhs) == len(s.Rhs) {
+							for i, lhs := range s.Lhs {
+								id, isID := lhs.(*ast.Ident)
+								if !isID || id.Name == "_" {
+									continue
+								}
+								rhs := s.Rhs[i]
+								if u, isU := rhs.(*ast.UnaryExpr); isU && u.Op == token.AND {
+									if r, _ := rooted(u.X, m.recv); r {
+										aliases[id.Name] = true
+									}
+								} else if c, isC := rhs.(*ast.CallExpr); isC {
+									// a pointer returned by a mutator called on something rooted at the receiver (child = n.upsertEdge(...))
+									if sel, ok := c.Fun.(*ast.SelectorExpr); ok && mut[sel.Sel.Name] {
+										if r, _ := rooted(sel.X, m.recv); r {
+											aliases[id.Name] = true
+										}
+									}
+								}
+							}
+						}
+						return true
+					})
+				}
+				ast.Inspect(m.fd.Body, func(n ast.Node) bool {
+					switch s := n.(type) {
+					case *ast.AssignStmt:
+						if s.Tok == token.DEFINE {
+							return true
+						}
+						for _, lhs := range s.Lhs {
+							if r, deep := rooted(lhs, m.recv); r && deep {
+								writes = true
+							}
+						}
+					case *ast.IncDecStmt:
+						if r, deep := rooted(s.X, m.recv); r && deep {
+							writes = true
+						}
+					case *ast.CallExpr:
+						if sel, ok := s.Fun.(*ast.SelectorExpr); ok && mut[sel.Sel.Name] {
+							if r, _ := rooted(sel.X, m.recv); r {
+								writes = true
+							}
+						}
+					}
+					return true
+				})
+				if writes {
+					keys[m.key], mut[m.name], changed = true, true, true
+				}
+			}
+		}
+		for k := range keys {
+			out = append(out, k)
+		}
+	}
+	sort.Strings(out)
+	add("cors_receiverMutators", ": List Bytes := "+leanBytesList(out),
+		"every method that writes through its receiver (directly or by calling such a method on something rooted at the receiver): pkg.(recvType).method (sorted)")
+}
